@@ -2316,7 +2316,7 @@ namespace ST
             if (pstart < pend)
                 std::char_traits<char>::copy(out, pstart, pend - pstart);
 
-            return result;
+            return from_validated(std::move(result));
         }
 
         ST_NODISCARD
